@@ -3,15 +3,15 @@ package main
 // Evaluation of contract expressions to symbolic values in a given state.
 
 import (
-	"golang.org/x/tools/go/ssa"
-	"regexp"
-	"sync"
 	"fmt"
 	"go/constant"
 	"go/token"
 	"go/types"
+	"golang.org/x/tools/go/ssa"
 	"math/big"
+	"regexp"
 	"strings"
+	"sync"
 )
 
 type Env struct {
